@@ -31,10 +31,15 @@ var Props = []*common.Prop{outProp("C01"), outProp("C04"), outProp("C17"),
 		Gen:    func(r *simrt.Rand, tier string, idx int) interface{} { return genStopCase(r, tier) },
 		Run:    func(t *testing.T, c interface{}, trace bool) *common.Outcome { return runStop(t, c, trace) },
 		Shrink: shrinkStop},
-	{ID: "C03", New: func() interface{} { return &LifeCase{} },
-		Gen:    func(r *simrt.Rand, tier string, idx int) interface{} { return genLifeCase(r, tier) },
-		Run:    func(t *testing.T, c interface{}, trace bool) *common.Outcome { return runLife(t, c, trace) },
-		Shrink: shrinkLife},
+	common.Combine("C03",
+		common.Part{Name: "lifecycle", Weight: 7, P: &common.Prop{ID: "C03", New: func() interface{} { return &LifeCase{} },
+			Gen:    func(r *simrt.Rand, tier string, idx int) interface{} { return genLifeCase(r, tier) },
+			Run:    func(t *testing.T, c interface{}, trace bool) *common.Outcome { return runLife(t, c, trace) },
+			Shrink: shrinkLife}},
+		common.Part{Name: "udpsessions", Weight: 1, P: &common.Prop{ID: "C03", New: func() interface{} { return &UDPLifeCase{} },
+			Gen:    func(r *simrt.Rand, tier string, idx int) interface{} { return genUDPLifeCase(r, tier) },
+			Run:    runUDPLife,
+			Shrink: shrinkUDPLife}}),
 	{ID: "C02", New: func() interface{} { return &InCase{} },
 		Gen:    func(r *simrt.Rand, tier string, idx int) interface{} { return genInCase(r, tier) },
 		Run:    func(t *testing.T, c interface{}, trace bool) *common.Outcome { return runIn(t, c, trace) },
